@@ -51,6 +51,20 @@ def parsePerm (s : String) : Option Perm :=
     | ["tab", v] => (parseInts v).map .table
     | _ => none
 
+/-- permutation specs that refer to the driver state: `ft<i>` = `FrequencyPermutation.from_table(table i)`. -/
+def resolvePerm (tables : List Table) (s : String) : Option Perm :=
+  if s.startsWith "ft" then
+    match (s.drop 2).toNat? with
+    | some i => match tables[i]? with
+      | some t => if t.bucketed then none else some (.freq (countAll t))
+      | none => none
+    | none => none
+  else parsePerm s
+
+def parseQA (qa : String) : Option QAlph :=
+  if qa == "f" then some .foreign
+  else if qa.startsWith "p" then (qa.drop 1).toNat?.map .pre else none
+
 def parsePair (rp : String) : Option (Nat × Nat) :=
   match rp.splitOn ":" with
   | [r, p] => match r.toNat?, p.toNat? with
@@ -231,8 +245,75 @@ def step (st : St) (line : String) : St × String :=
         match tbl i, tbl j with
         | some t, some o => (st, s!"ok {tableEq t o}")
         | _, _ => (st, "no-table")
+      | "seqsx", [nb, refids, seqs, masks, ms, mode] =>
+        -- sequences over their own (prefix) alphabets of `ms` symbols; `mode` e: explicit alphabet = the current
+        -- base alphabet, d: default (the common alphabet of the sequences); nb `a`: default bucket number
+        -- (any number >= 1 gives the same observable table: C10_mkTable_exact)
+        match (if nb == "a" then some (some 7) else parseNb nb), parseLists seqs, parseNats ms with
+        | some nb, some seqs, some ms =>
+          match parseRefIds refids seqs.length, parseMasks masks seqs.length with
+          | some rs, some mks =>
+            if rs.length ≠ seqs.length || mks.length ≠ seqs.length then (st, showErr .indexError)
+            else
+              let n' := if mode == "e" then a.n else ms.foldl max 0
+              addTable st (fromSequences { a with n := n' } nb (zip3 rs seqs mks))
+          | _, _ => bad
+        | _, _, _ => bad
+      | "minimq", [w, p, codes, qa, chk] =>
+        match w.toNat?, resolvePerm st.tables p, parseNats codes, parseQA qa with
+        | some w, some p, some cs, some qa => (st, showRes pairsOut (minimizerSelectSeq a w p qa (chk == "1") cs))
+        | _, _, _, _ => bad
+      | "mincq", [c, p, codes, qa, chk] =>
+        match c.toNat?, resolvePerm st.tables p, parseNats codes, parseQA qa with
+        | some c, some p, some cs, some qa => (st, showRes pairsOut (mincodeSelectSeq a c p qa (chk == "1") cs))
+        | _, _, _, _ => bad
+      | "syncq", [s, p, offs, codes, qa, chk, cached] =>
+        match s.toNat?, parsePerm p, parseInts offs, parseNats codes, parseQA qa with
+        | some s, some p, some offs, some cs, some qa =>
+          (st, showRes pairsOut (syncmerSelectSeq a.n a.k s p offs (cached == "1") qa (chk == "1") cs))
+        | _, _, _, _, _ => bad
+      | "has", [i, q] =>
+        match tbl i, q.toNat? with
+        | some t, some q => (st, showRes toString (tableHas t q))
+        | none, _ => (st, "no-table")
+        | _, _ => bad
+      | "iter", [i] =>
+        match tbl i with
+        | some t => (st, if t.bucketed then showErr .typeError else "ok " ++ showNatsE (getKmers t))
+        | none => (st, "no-table")
+      | "rev", [i] =>
+        match tbl i with
+        | some t => (st, if t.bucketed then showErr .typeError else "ok " ++ showNatsE (getKmers t).reverse)
+        | none => (st, "no-table")
+      | "props", [i] =>
+        match tbl i with
+        | some t =>
+          let sp := match t.alph.spacing with | some sp => showNatsE sp | none => "-"
+          let nbs := if t.bucketed then toString t.nb else "-"
+          (st, s!"ok len={t.alph.size} k={t.alph.k} n={t.alph.n} nb={nbs} sp={sp}")
+        | none => (st, "no-table")
+      | "str", [i] =>
+        match tbl i with
+        | some t => (st, "ok " ++ (let x := tableStr t; if x.isEmpty then "_" else x))
+        | none => (st, "no-table")
+      | "split", [q] =>
+        match q.toNat? with
+        | some q => (st, showRes showNatsE (splitChecked a q))
+        | none => bad
+      | "decode", [q] =>
+        match q.toNat? with
+        | some q => (st, if q ≥ a.size then showErr .alphabetError else "ok " ++ kmerLetters a q)
+        | none => bad
+      | "encode", [codes] =>
+        match parseNats codes with
+        | some cs => (st, showRes toString (encodeChecked a cs))
+        | none => bad
+      | "arrlen", [l] =>
+        match l.toNat? with
+        | some l => (st, s!"ok {a.arrayLength l}")
+        | none => bad
       | "minim", [w, p, ks] =>
-        match w.toNat?, parsePerm p, parseNats ks with
+        match w.toNat?, resolvePerm st.tables p, parseNats ks with
         | some w, some p, some ks => (st, showRes pairsOut (minimizerSelect w p ks))
         | _, _, _ => bad
       | "sync", [s, p, offs, codes] =>
@@ -248,7 +329,7 @@ def step (st : St) (line : String) : St × String :=
         | some s, some p, some offs, some ks => (st, showRes pairsOut (cachedSyncmerFromKmers a.n a.k s p offs ks))
         | _, _, _, _ => bad
       | "minc", [c, p, ks] =>
-        match c.toNat?, parsePerm p, parseNats ks with
+        match c.toNat?, resolvePerm st.tables p, parseNats ks with
         | some c, some p, some ks => (st, showRes pairsOut (mincodeSelect a c p ks))
         | _, _, _ => bad
       | _, _ => bad
